@@ -311,6 +311,12 @@ theorem ordered_setFrequencies_orig_keeps_rejected :
     simp
   · simp [NonIncreasing]; norm_num
 
+/-- as it was, the setter on the empty vector (reached from `OrderedSimplex(std::vector<double>())`)
+indexed out of bounds; repaired: returns at once -/
+theorem ordered_setFrequencies_orig_empty_undefined (o : OSt ℝ) :
+    (oSetFrequenciesOrig o []).2 = some Err.ub ∧ oSetFrequencies o [] = .ok o := by
+  simp [oSetFrequenciesOrig, oSetFrequencies]
+
 /-- the repaired setter on the same call: raises, and (being an `Except`) returns no new object -/
 theorem ordered_setFrequencies_rejects_witness :
     oSetFrequencies witnessObj [1/5, 3/10, 1/2] = .error Err.constraint := by
